@@ -245,9 +245,22 @@ def run(ctx):
                 t2.site("%s: Serialize = serialize_str(self.to_string())" % short)
             else:
                 t2.fail("C18.T2:serialize:%s" % short, ser.path, ser.span, "Serialize does not write exactly self.to_string()")
-        vis = [f for f in P.fns.values() if f.crate == "bignumber" and f.name == "visit_str" and (f.impl_self or "").endswith(short + "Visitor") and f.body is not None]
+        # the visitor is the type Deserialize hands to deserialize_str (role, not name)
+        de = trait_fn(P, ty, "Deserialize<'de>", "deserialize") or trait_fn(P, ty, "Deserialize", "deserialize")
+        vis_ty = None
+        if de is not None:
+            ex = common.exit_sites(P, de)
+            if len(ex) == 1 and ex[0][3][0] == "call" and common.last_seg(ex[0][3][3]) == "deserialize_str" and len(ex[0][3][4]) == 2:
+                va = ex[0][3][4][1]
+                if va[0] == "agg" and va[1] == "adt" and str(va[2]).startswith("bignumber::"):
+                    vis_ty = va[2]
+        if vis_ty is None:
+            t2.fail("C18.T2:deserialize:%s" % short, de.path if de else "-", de.span if de else "-", "Deserialize does not delegate to deserialize_str with the type's visitor")
+            continue
+        t2.site("%s: Deserialize = deserialize_str(%s)" % (short, vis_ty.split("::")[-1]))
+        vis = [f for f in P.fns.values() if f.crate == "bignumber" and f.name == "visit_str" and f.impl_self == vis_ty and f.body is not None]
         if len(vis) != 1:
-            t2.fail("C18.T2:visitor-anchor:%s" % short, "-", "-", "anchor-missing: %sVisitor::visit_str" % short)
+            t2.fail("C18.T2:visitor-anchor:%s" % short, "-", "-", "anchor-missing: %s::visit_str" % vis_ty)
             continue
         vf = vis[0]
         parses = [(b, v) for b, v in calls_named(P, vf, parse_callee)]
@@ -289,13 +302,6 @@ def run(ctx):
                     t2.fail("C18.T2:visitor-value:%s" % short, vf.path, common.span_of_block_term(vf, b), "visitor returns %s, expected the parsed value" % sorted(rs))
         if good:
             t2.site("%sVisitor::visit_str == %s(v) (Ok => that value, Err => error; no other condition)" % (short, parse_callee))
-        de = trait_fn(P, ty, "Deserialize<'de>", "deserialize") or trait_fn(P, ty, "Deserialize", "deserialize")
-        if de is not None:
-            ex = common.exit_sites(P, de)
-            if len(ex) == 1 and ex[0][3][0] == "call" and common.last_seg(ex[0][3][3]) == "deserialize_str" and (short + "Visitor") in ctx.show(ex[0][3], 3):
-                t2.site("%s: Deserialize = deserialize_str(%sVisitor)" % (short, short))
-            else:
-                t2.fail("C18.T2:deserialize:%s" % short, de.path, de.span, "Deserialize does not delegate to deserialize_str with the type's visitor")
     # ---- T3 ---------------------------------------------------------------------------------------------------------
     sub = type(ctx)(ctx.prop, P)
     c08.run(sub)
